@@ -36,6 +36,8 @@ type SCase struct {
 	RepID    string       `json:"rep"`
 	N0       int64        `json:"n0"`
 	Count    int          `json:"count"`
+	// Chunked: low-latency delivery (ato = 3/4, chunkdur = 1/4 of the segment) of the same requests, made after the segment's end
+	Chunked bool `json:"chunked,omitempty"`
 }
 
 func (c SCase) param() string {
@@ -69,6 +71,10 @@ func genS(t *rapid.T) (SCase, *env.Env) {
 	}
 	rep := gen.RepOfKinds(t, e.Asset, "video", "audio")
 	c := SCase{Target: tg, Cfg: cfg, RepID: rep.ID}
+	if a := tg.Asset; (a == "testpic_2s" || a == "testpic_6s" || a == "testpic_8s") && rapid.IntRange(0, 2).Draw(t, "chunked") == 0 {
+		c.Chunked = true
+		c.Cfg.AtoMS = 0
+	}
 	np := rapid.IntRange(1, 3).Draw(t, "npat")
 	maxCycle := int(segMS*12/1000) + 2
 	for i := 0; i < np; i++ {
@@ -124,6 +130,10 @@ func checkS(c SCase, e *env.Env) (*hx.Violation, sinfo) {
 	noAto.AtoMS = 0
 	tl := refmodel.NewTimeline(e.Asset, rep, noAto) // instants and indices without the offset
 	parts := c.Cfg.Parts()
+	if c.Chunked {
+		segMS := int64(e.Asset.LoopMS) / int64(len(e.Asset.Ref.Segs))
+		parts = append(parts, "ato_"+refmodel.FormatMS(segMS*3/4), "chunkdur_"+refmodel.FormatMS(segMS/4))
+	}
 	with := append(append([]string{}, parts...), c.param())
 	ts := tl.TS()
 	// model: index of each segment among the segments starting in its cycle
@@ -206,6 +216,9 @@ func TestC14StatusCodes(t *testing.T) {
 		}
 		if c.Cfg.AtoMS != 0 {
 			cls = append(cls, "sc:ato!=0")
+		}
+		if c.Chunked {
+			cls = append(cls, "sc:chunked-delivery")
 		}
 		if c.Cfg.Snr != 0 {
 			cls = append(cls, "sc:snr!=0")
